@@ -2,7 +2,7 @@ SPECIFICATION Spec
 CONSTANTS
   Cfg <- CfgSmall
   Feeders <- F2
-  MaxWrites = 1
+  MaxWrites = 2
   MaxUpd = 1
   MaxGets = 1
   DVals <- DV
@@ -12,5 +12,4 @@ CONSTANTS
   FinalClamp = TRUE
   CloseWaits = TRUE
 INVARIANTS InBounds AbsOK Consistent Sub GetterOK ClosedErr NoPanic
-PROPERTIES NoPublishAfterClose WriteReturns CloseReturns AllDelivered
-
+PROPERTIES NoPublishAfterClose
